@@ -61,7 +61,12 @@ Definition discovered_of (evs : list dfs_event) : list nat :=
 Definition cone_of (om : omap) (evs : list dfs_event) : list (nat * nat) :=
   fold_left (fun acc u => p2n_insert acc (pos_or0 om u) u) (discovered_of evs) [].
 
-(* Ok (inl start) = Err(Cycle(start)); Ok (inr (b_fut, a_past)) *)
+(* the scratch bit sets only ever grow: their length after this call *)
+Definition grown (blen : nat) (v : view) : nat := Nat.max blen (vbound v).
+Definition with_cap (v : view) (n : nat) : view :=
+  mkView (vdirected v) (vbound v) (Some n) (vnodes v) (vout v) (vin v) (vecount v) (vebound v) (verefs v).
+
+(* Ok (inl start) = Err(Cycle(start)); Ok (inr (b_fut, a_past)).  v carries the bit-set length as vcap *)
 Definition causal_cones (debug : bool) (v : view) (om : omap) (min_node max_node : nat)
   : res (nat + (list (nat * nat) * list (nat * nat))) :=
   (* every node the walk can touch must have a position entry, otherwise get_position asserts *)
@@ -100,13 +105,14 @@ Fixpoint set_positions (om : omap) (l : list (nat * nat)) : res omap :=
   | (pos, node) :: rest => rbind (om_set_position om node pos) (fun om' => set_positions om' rest)
   end.
 
-(* Ok (inl n) = Err(Cycle(n)) *)
-Definition update_ordering (debug : bool) (v : view) (om : omap) (a b : nat) : res (nat + omap) :=
+(* Ok (inl n, _) = Err(Cycle(n)); the second component is the bit-set length afterwards *)
+Definition update_ordering (debug : bool) (v : view) (blen : nat) (om : omap) (a b : nat) : res ((nat + omap) * nat) :=
   rbind (get_position om b) (fun min_order =>
   rbind (get_position om a) (fun max_order =>
-    if Nat.leb max_order min_order then Ok (inr om)
+    if Nat.leb max_order min_order then Ok (inr om, blen)
     else
-      rbind (causal_cones debug v om b a) (fun r =>
+      rmap (fun r => (r, grown blen v)) (
+      rbind (causal_cones debug (with_cap v (grown blen v)) om b a) (fun r =>
         match r with
         | inl c => Ok (inl c)
         | inr (b_fut, a_past) =>
@@ -114,11 +120,12 @@ Definition update_ordering (debug : bool) (v : view) (om : omap) (a b : nat) : r
             let nodes := map snd a_past ++ map snd b_fut in
             if andb debug (negb (Nat.eqb (length positions) (length b_fut + length a_past))) then Panic
             else rmap inr (set_positions om (combine positions nodes))
-        end))).
+        end)))).
 
-Definition is_valid_edge (debug : bool) (v : view) (om : omap) (a b : nat) : res bool :=
-  if Nat.eqb a b then Ok false
+Definition is_valid_edge (debug : bool) (v : view) (blen : nat) (om : omap) (a b : nat) : res (bool * nat) :=
+  if Nat.eqb a b then Ok (false, blen)
   else rbind (get_position om a) (fun pa =>
        rbind (get_position om b) (fun pb =>
-         if Nat.ltb pa pb then Ok true
-         else rmap (fun r => match r with inl _ => false | inr _ => true end) (causal_cones debug v om b a))).
+         if Nat.ltb pa pb then Ok (true, blen)
+         else rmap (fun r => (match r with inl _ => false | inr _ => true end, grown blen v))
+                   (causal_cones debug (with_cap v (grown blen v)) om b a))).
